@@ -242,6 +242,7 @@ func runC06(env *core.Env) {
 		v   any
 	}
 	evs := []ev{{"T", system.Boolean(true)}, {"F", system.Boolean(false)}, {"E", system.Collection{}}, {"N", system.Integer(5)}, {"M", system.Collection{system.Boolean(true), system.Boolean(false)}},
+		{"T", system.Collection{system.Boolean(true)}}, {"F", system.Collection{system.Boolean(false)}}, {"F", system.Collection{&dtpb.Boolean{Value: false}}}, {"T", system.Collection{&dtpb.Boolean{Value: true}}},
 		{"T", &dtpb.Boolean{Value: true}}, {"F", &dtpb.Boolean{Value: false}}, {"N", &dtpb.HumanName{Family: &dtpb.String{Value: "Z"}}}, {"N", system.String("false")}, {"M", system.Collection{system.Integer(1), system.Integer(2)}}}
 	notTab0 := map[string]string{"T": "F", "F": "T", "E": "E", "N": "F", "M": "ERR"}
 	iifTab0 := map[string]string{"T": "T", "F": "F", "E": "F", "N": "T", "M": "ERR"}
@@ -272,6 +273,15 @@ func runC06(env *core.Env) {
 			c06EnvProg(env, "env-iif", "iif(%a, true, false)", iifTab0[a.val], eo)
 			c06EnvProg(env, "env-literal-operand", "%a and true", logic3("and", a.val, "T"), eo)
 			c06EnvProg(env, "env-literal-operand", "false or %a", logic3("or", "F", a.val), eo)
+			// the same variable read again after not(): `a.not() or a`, `a.not() xor a`, `a.not().not()` vs `a and true`
+			if a.val != "M" {
+				na := notTab0[a.val]
+				c06EnvProg(env, "env-reread-after-not", "%a.not() or %a", logic3("or", na, a.val), eo)
+				c06EnvProg(env, "env-reread-after-not", "%a.not() xor %a", logic3("xor", na, a.val), eo)
+				c06EnvProg(env, "env-reread-after-not", "%a and %a.not()", logic3("and", a.val, na), eo)
+				c06EnvProg(env, "env-reread-after-not", "%a.not().not() and %a", logic3("and", notTab0[na], a.val), eo)
+				c06EnvProg(env, "env-reread-after-not", "%a.not()", na, eo)
+			}
 			env.Cover("env-operands")
 		}
 	}
